@@ -955,7 +955,7 @@ Proof.
   intros f. rewrite (cg_def_of _ _ I C). apply R.
 Qed.
 
-Lemma step_sim : forall n m s o, HInv m s ->
+Lemma step_sim : forall n m s o, HInv m s -> no_fmak [o] = true ->
   HInv (fst (stepM n m o)) (fst (stepS n s o)) /\
   match snd (stepS n s o), snd (stepM n m o) with
   | Some a, Some b => osim a b
@@ -963,7 +963,7 @@ Lemma step_sim : forall n m s o, HInv m s ->
   | _, _ => False
   end.
 Proof.
-  intros n m s o (I & R & CE & GE). destruct o as [cid forms|cid|cid]; simpl in *.
+  intros n m s o (I & R & CE & GE) NF. destruct o as [cid forms|cid|cid|fk]; simpl in *; [| | |discriminate NF].
   - split; auto. unfold HInv; simpl. split; [auto|split; [auto|split; [congruence|auto]]].
   - rewrite <- CE, <- GE. destruct (nlookup cid (codes m)) as [fs|]; [|split; [unfold HInv; auto|simpl; auto]].
     pose proof (good_set_out (ms m) []) as [T0 I0].
@@ -992,19 +992,23 @@ Proof.
     intros Cc. destruct (S1 Cc) as [-> ->]. reflexivity.
 Qed.
 
-(* EVERY history refines S outcome by outcome (the statement refuted for the unrepaired code) *)
-Theorem history_refines_from : forall n ops m s, HInv m s ->
+(* EVERY history without fmakunbound refines S outcome by outcome (the statement refuted for the unrepaired code;
+   fmakunbound: see Spec.v, guard, and fmakunbound_needs_guard_refuted) *)
+Lemma no_fmak_cons : forall o r, no_fmak (o :: r) = true -> no_fmak [o] = true /\ no_fmak r = true.
+Proof. intros o r H. destruct o; simpl in *; auto; discriminate. Qed.
+Theorem history_refines_from : forall n ops m s, HInv m s -> no_fmak ops = true ->
   Forall2 osim (runS n s ops) (runM n m ops).
 Proof.
-  intros n. induction ops as [|o r IH]; simpl; intros m s H; [constructor|].
-  destruct (step_sim n m s o H) as [H' OB].
+  intros n. induction ops as [|o r IH]; simpl; intros m s H NF; [constructor|].
+  destruct (no_fmak_cons _ _ NF) as [N1 N2].
+  destruct (step_sim n m s o H N1) as [H' OB].
   destruct (stepM n m o) as [m' obM]. destruct (stepS n s o) as [s' obS]. simpl in *.
-  specialize (IH m' s' H').
+  specialize (IH m' s' H' N2).
   destruct obS as [a|], obM as [b|]; try contradiction; simpl; auto.
 Qed.
 Lemma HInv_init : HInv minit sinit.
 Proof. split; [apply Inv_init|]. split; [intros f; reflexivity|split; reflexivity]. Qed.
-Theorem history_refines : forall n ops, Forall2 osim (runS n sinit ops) (runM n minit ops).
+Theorem history_refines : forall n ops, no_fmak ops = true -> Forall2 osim (runS n sinit ops) (runM n minit ops).
 Proof. intros. apply history_refines_from; auto. apply HInv_init. Qed.
 
 (* ---- consequences in property terms ---------------------------------------------------------------- *)
@@ -1275,6 +1279,37 @@ Example closure_replaced :
     [(Val (VInt 21), []); (Val VNil, []); (Val (VList [VInt 2; VInt 3]), []); (Val (VInt 21), [])].
 Proof. vm_compute. auto. Qed.
 
+(* fmakunbound outside the guard (known findings): (defun f () 1) (defun h () (f)) then (fmakunbound 'f): the caller
+   compiled earlier still answers 1 where S has undefined-function; and when a call of f is compiled while f is
+   unbound - (defun k () (f)) - a new placeholder is registered, the next (defun f () 2) patches that one, and h
+   stays with the orphaned Lambda: (list (h) (k)) is (1 2) in M, (2 2) in S.  Inside the finer guard of the
+   correspondence - the redefinition follows at once - M is S: 2. *)
+Definition fmak_pre : list op :=
+  [OLoad 0 [dfn 1 "f" 2 [] [SList 3 [SSym "progn"; SInt 1]]; dfn 4 "h" 5 [] [SList 6 [SSym "f"]]]; ORun 0; OFmak "f"].
+Definition fmak_ops1 : list op := fmak_pre ++ [OLoad 1 [SList 7 [SSym "h"]]; ORun 1].
+Definition fmak_ops2 : list op :=
+  fmak_pre ++ [OLoad 1 [dfn 7 "k" 8 [] [SList 9 [SSym "f"]]; dfn 10 "f" 11 [] [SList 12 [SSym "progn"; SInt 2]];
+                        SList 13 [SSym "list"; SList 14 [SSym "h"]; SList 15 [SSym "k"]]]; ORun 1].
+Definition fmak_ops3 : list op :=
+  fmak_pre ++ [OLoad 1 [dfn 10 "f" 11 [] [SList 12 [SSym "progn"; SInt 2]]; SList 14 [SSym "h"]]; ORun 1].
+Lemma fmak_witness :
+  runM 50 minit fmak_ops1 = [(Val (VSym "h"), []); (Val (VInt 1), [])] /\
+  runS 50 sinit fmak_ops1 = [(Val (VSym "h"), []); (Err EUndefined, [])] /\
+  runM 50 minit fmak_ops2 = [(Val (VSym "h"), []); (Val (VList [VInt 1; VInt 2]), [])] /\
+  runS 50 sinit fmak_ops2 = [(Val (VSym "h"), []); (Val (VList [VInt 2; VInt 2]), [])] /\
+  runM 50 minit fmak_ops3 = [(Val (VSym "h"), []); (Val (VInt 2), [])] /\
+  runS 50 sinit fmak_ops3 = [(Val (VSym "h"), []); (Val (VInt 2), [])] /\
+  fguards 50 minit true None fmak_ops1 = [true; false] /\ fguards 50 minit true None fmak_ops2 = [true; false] /\
+  fguards 50 minit true None fmak_ops3 = [true; true].
+Proof. vm_compute. auto 12. Qed.
+Theorem fmakunbound_needs_guard_refuted :
+  ~ (forall n ops, Forall2 osim (runS n sinit ops) (runM n minit ops)).
+Proof.
+  intros H. specialize (H 50 fmak_ops2).
+  destruct fmak_witness as (_ & _ & M2 & S2 & _). rewrite S2, M2 in H.
+  inversion H as [|? ? ? ? _ H2]; subst. inversion H2 as [|? ? ? ? [O _] _]; subst. specialize (O eq_refl). discriminate.
+Qed.
+
 (* non-vacuity: a history with a forward reference (caller before callee), compilation, repeated
    evaluation of the same code object, a redefinition between evaluations; all outcomes are values and
    M = S; the state has compiled slots and a patched placeholder *)
@@ -1306,9 +1341,10 @@ Example demo_inv : Inv demo_state /\ Rel demo_state
     ("callee", (["p"; "q"], [SList 6 [SSym "list"; SSym "p"; SList 7 [SSym "emit"; SSym "q"]]], []));
     ("caller", (["a"], [SList 3 [SSym "callee"; SSym "a"; SInt 2]], []))].
 Proof.
-  assert (H : forall ops m s, HInv m s ->
+  assert (H : forall ops m s, HInv m s -> no_fmak ops = true ->
      HInv (fold_left (fun m o => fst (stepM 50 m o)) ops m) (fold_left (fun s o => fst (stepS 50 s o)) ops s)).
-  { induction ops as [|o r IH]; simpl; intros m s Hm; auto. apply IH; auto. apply step_sim; auto. }
-  destruct (H demo_ops minit sinit HInv_init) as (I & R & _). split; [exact I|].
+  { induction ops as [|o r IH]; simpl; intros m s Hm NF; auto. destruct (no_fmak_cons _ _ NF) as [N1 N2].
+    apply IH; auto. apply step_sim; auto. }
+  destruct (H demo_ops minit sinit HInv_init eq_refl) as (I & R & _). split; [exact I|].
   exact R.
 Qed.
